@@ -527,3 +527,31 @@ def eval_pure(node, env):
         t = eval_pure(node.test, env)
         return None if t is None else eval_pure(node.body if t else node.orelse, env)
     return None
+
+
+def inline_temps_in(func_node, expr, depth=5):
+    """expr with every local name that has exactly ONE definition in the function (plain or as an element of a tuple assignment, never re-stored or
+    augmented) replaced by that definition, recursively: the value as one expression, whether or not the developer named its parts"""
+    import copy as _copy
+    defs, nstores = {}, {}
+    for n in ast.walk(func_node):
+        if isinstance(n, ast.Name) and isinstance(n.ctx, (ast.Store, ast.Del)):
+            nstores[n.id] = nstores.get(n.id, 0) + 1
+        if isinstance(n, ast.AugAssign) and isinstance(n.target, ast.Name):
+            nstores[n.target.id] = nstores.get(n.target.id, 0) + 1
+        if isinstance(n, ast.Assign):
+            for t_, v_ in assign_pairs(n):
+                if isinstance(t_, ast.Name):
+                    defs.setdefault(t_.id, []).append(v_)
+    params = {a.arg for a in func_node.args.args} if isinstance(func_node, ast.FunctionDef) else set()
+    single = {k: v[0] for k, v in defs.items() if len(v) == 1 and nstores.get(k) == 1 and k not in params}
+
+    class T(ast.NodeTransformer):
+        def __init__(self, d):
+            self.d = d
+
+        def visit_Name(self, n):
+            if isinstance(n.ctx, ast.Load) and n.id in single and self.d > 0:
+                return T(self.d - 1).visit(_copy.deepcopy(single[n.id]))
+            return n
+    return T(depth).visit(_copy.deepcopy(expr))
